@@ -20,62 +20,76 @@ CONSTANTS Selections       \* sets of paths the --include pattern can denote
 VARIABLES repr,     \* <<commit, path>> -> "none" | "raw" | "ptr" after the rewrites so far
           tagged,   \* commit carrying the tag v1 (annotated), or NoCommit
           phase,    \* "history" | "imported" | "exported"
-          exec      \* commit -> set of executable paths (never touched by a rewrite)
-mvars == <<rvars, repr, tagged, phase, exec, steps, hist>>
-MView == <<rvars, repr, tagged, phase, exec>>
+          exec,     \* commit -> set of executable paths (never touched by a rewrite)
+          links     \* commit -> set of paths that are symbolic links (their blob is the target; never converted)
+mvars == <<rvars, repr, tagged, phase, exec, links, steps, hist>>
+MView == <<rvars, repr, tagged, phase, exec, links>>
 
 ReprOf(blob) == IF blob = "none" THEN "none" ELSE IF blob = "raw" THEN "raw" ELSE "ptr"
 CurRepr == [c \in 1..Len(commits) |-> [p \in Paths |-> ReprOf(commits[c].tree[p])]]
 
-MInit == RepoInit /\ repr = <<>> /\ tagged = NoCommit /\ phase = "history" /\ exec = <<>>
+MInit == RepoInit /\ repr = <<>> /\ tagged = NoCommit /\ phase = "history" /\ exec = <<>> /\ links = <<>>
 
 Hist == phase = "history" /\ UNCHANGED <<repr, tagged, phase>>
 ExecOf(c) == IF c = NoCommit THEN {} ELSE exec[c]
+LinksOf(c) == IF c = NoCommit THEN {} ELSE links[c]
 \* a new commit keeps its first parent's modes, except that the path it writes is written as an
 \* ordinary file; the merge commits of this model write every path afresh (no executable left)
 MCommit(b, p, blob, g) == /\ Hist /\ Commit(b, p, blob, g)
                           /\ LET parent == IF br[b] = NoCommit /\ b # "main" THEN br["main"] ELSE br[b]
-                             IN exec' = Append(exec, ExecOf(parent) \ {p})
-MMerge(b, o)           == /\ Hist /\ Merge(b, o) /\ exec' = Append(exec, {})
+                             IN exec' = Append(exec, ExecOf(parent) \ {p}) /\ links' = Append(links, LinksOf(parent) \ {p})
+MMerge(b, o)           == /\ Hist /\ Merge(b, o) /\ exec' = Append(exec, {}) /\ links' = Append(links, {})
 \* git update-index --chmod=+x / -x ; git commit: nothing but the mode of p changes
 Chmod(b, p) == /\ Hist /\ Len(commits) < MaxCommits /\ br[b] # NoCommit /\ commits[br[b]].tree[p] # "none"
                /\ commits' = Append(commits, [par |-> {br[b]}, tree |-> commits[br[b]].tree, age |-> commits[br[b]].age])
                /\ br' = [br EXCEPT ![b] = Len(commits) + 1] /\ head' = b
+               /\ p \notin links[br[b]]
                /\ exec' = Append(exec, IF p \in exec[br[b]] THEN exec[br[b]] \ {p} ELSE exec[br[b]] \cup {p})
+               /\ links' = Append(links, links[br[b]])
                /\ UNCHANGED <<rr, rt, local, server, everRemote>>
                /\ Log([a |-> "chmod", b |-> b, p |-> p, x |-> (p \notin exec[br[b]])])
+\* a type change only: the ordinary file p becomes a symbolic link whose target is the very same blob
+\* (a link committed with core.symlinks=false and repaired later), or back
+Relink(b, p) == /\ Hist /\ Len(commits) < MaxCommits /\ br[b] # NoCommit /\ commits[br[b]].tree[p] = "raw"
+                /\ commits' = Append(commits, [par |-> {br[b]}, tree |-> commits[br[b]].tree, age |-> commits[br[b]].age])
+                /\ br' = [br EXCEPT ![b] = Len(commits) + 1] /\ head' = b
+                /\ links' = Append(links, IF p \in links[br[b]] THEN links[br[b]] \ {p} ELSE links[br[b]] \cup {p})
+                /\ exec' = Append(exec, exec[br[b]] \ {p})
+                /\ UNCHANGED <<rr, rt, local, server, everRemote>>
+                /\ Log([a |-> "relink", b |-> b, p |-> p, link |-> (p \notin links[br[b]])])
 Tag(b) == /\ phase = "history" /\ tagged = NoCommit /\ br[b] # NoCommit /\ tagged' = br[b]
-          /\ UNCHANGED <<commits, br, rr, rt, head, local, server, everRemote, repr, phase, exec>>
+          /\ UNCHANGED <<commits, br, rr, rt, head, local, server, everRemote, repr, phase, exec, links>>
           /\ Log([a |-> "tag", b |-> b])
 
 Import(sel) ==
   /\ phase = "history" /\ Len(commits) > 0 /\ sel \in Selections
   /\ repr' = [c \in 1..Len(commits) |-> [p \in Paths |->
-                 IF p \in sel /\ commits[c].tree[p] = "raw" THEN "ptr" ELSE ReprOf(commits[c].tree[p])]]
+                 IF p \in sel /\ commits[c].tree[p] = "raw" /\ p \notin links[c] THEN "ptr" ELSE ReprOf(commits[c].tree[p])]]
   /\ phase' = "imported"
-  /\ UNCHANGED <<commits, br, rr, rt, head, local, server, everRemote, tagged, exec>>
-  /\ Log([a |-> "import", sel |-> sel, repr |-> repr', exec |-> exec, parents |-> [c \in 1..Len(commits) |-> commits[c].par],
+  /\ UNCHANGED <<commits, br, rr, rt, head, local, server, everRemote, tagged, exec, links>>
+  /\ Log([a |-> "import", sel |-> sel, repr |-> repr', exec |-> exec, links |-> links, parents |-> [c \in 1..Len(commits) |-> commits[c].par],
           heads |-> br, tagged |-> tagged])
 
 Export(sel) ==
   /\ phase = "imported" /\ sel \in Selections
   /\ repr' = [c \in 1..Len(commits) |-> [p \in Paths |-> IF p \in sel /\ repr[c][p] = "ptr" THEN "raw" ELSE repr[c][p]]]
   /\ phase' = "exported"
-  /\ UNCHANGED <<commits, br, rr, rt, head, local, server, everRemote, tagged, exec>>
-  /\ Log([a |-> "export", sel |-> sel, repr |-> repr', exec |-> exec, parents |-> [c \in 1..Len(commits) |-> commits[c].par],
+  /\ UNCHANGED <<commits, br, rr, rt, head, local, server, everRemote, tagged, exec, links>>
+  /\ Log([a |-> "export", sel |-> sel, repr |-> repr', exec |-> exec, links |-> links, parents |-> [c \in 1..Len(commits) |-> commits[c].par],
           heads |-> br, tagged |-> tagged])
 
 MNext == \/ \E b \in Branches, p \in Paths, blob \in Blobs, g \in Ages : MCommit(b, p, blob, g)
          \/ \E b, o \in Branches : MMerge(b, o)
          \/ \E b \in Branches : Tag(b)
          \/ \E b \in Branches, p \in Paths : Chmod(b, p)
+         \/ \E b \in Branches, p \in Paths : Relink(b, p)
          \/ \E s \in Selections : Import(s) \/ Export(s)
 MSpec == MInit /\ [][MNext]_mvars
 
 \* C12 on the design: exactly the selected ordinary files change representation on import, and
 \* export after import of the same selection restores every representation
 OnlySelectedChange == phase = "imported" =>
-   \A c \in 1..Len(commits), p \in Paths : repr[c][p] # ReprOf(commits[c].tree[p]) => commits[c].tree[p] = "raw"
+   \A c \in 1..Len(commits), p \in Paths : repr[c][p] # ReprOf(commits[c].tree[p]) => (commits[c].tree[p] = "raw" /\ p \notin links[c])
 ExportRestores == [][\A s \in Selections : (Export(s) /\ hist[Len(hist)].a = "import" /\ hist[Len(hist)].sel = s) =>
                         \A c \in 1..Len(commits), p \in Paths : (commits[c].tree[p] = "raw" => repr'[c][p] = "raw")]_mvars
 
